@@ -181,18 +181,20 @@ theorem week_spec (y : Int) (o : Nat) (hy : MIN_YEAR ≤ y ∧ y ≤ MAX_YEAR) (
       weekdayOf (dayNumYo y o - daysBack (weekdayOf (dayNumYo y o)) s.toNat) = s.toNat ∧
       IsDateOfDayNum rf (dayNumYo y o - daysBack (weekdayOf (dayNumYo y o)) s.toNat) ∧
       IsDateOfDayNum rl (dayNumYo y o - daysBack (weekdayOf (dayNumYo y o)) s.toNat + 6) ∧
-      ((dateOfYo y o).week s).checked_days =
-        .ok (match rf, rl with | some a, some b => some (a, b) | _, _ => none) ∧
+      ((dateOfYo y o).week s).checked_days = .ok (bothDays rf rl) ∧
       ((dateOfYo y o).week s).first_day = (match rf with | some a => .ok a | none => .panic) ∧
-      ((dateOfYo y o).week s).last_day = (match rl with | some a => .ok a | none => .panic) := by
+      ((dateOfYo y o).week s).last_day = (match rl with | some a => .ok a | none => .panic) ∧
+      ((dateOfYo y o).week s).days = (match bothDays rf rl with | some p => .ok p | none => .panic) := by
   obtain ⟨rf, hf, sf⟩ := week_first_spec y o hy ho s
   obtain ⟨rl, hl, sl⟩ := week_last_spec y o hy ho s
   have hs7 := weekday_toNat_lt s
-  refine ⟨rf, rl, hf, hl, daysBack_range _ _, daysBack_weekday _ _ ⟨by omega, by omega⟩, sf, sl, ?_, ?_, ?_⟩
-  · unfold NaiveWeek.checked_days; rw [hf, hl]
+  have hcd : ((dateOfYo y o).week s).checked_days = .ok (bothDays rf rl) := by
+    unfold NaiveWeek.checked_days bothDays; rw [hf, hl]
     cases rf <;> cases rl <;> rfl
+  refine ⟨rf, rl, hf, hl, daysBack_range _ _, daysBack_weekday _ _ ⟨by omega, by omega⟩, sf, sl, hcd, ?_, ?_, ?_⟩
   · unfold NaiveWeek.first_day; rw [hf]; cases rf <;> rfl
   · unfold NaiveWeek.last_day; rw [hl]; cases rl <;> rfl
+  · unfold NaiveWeek.days; rw [hcd]; cases bothDays rf rl <;> rfl
 
 /-! ### n-th weekday of a month -/
 
